@@ -11,6 +11,7 @@ STYLE = {
  "clauses": "First read the statement clause by clause and the 'quantified over' text: each change must violate a DIFFERENT clause of the statement, or the same clause for a different region of the quantified input space, at a different code site. Prefer changes that only manifest for inputs away from the obvious ones: a particular nesting of two different constructs, the third or later element of a list, several scripts / statements in one file, a particular combination of the -optimize / line-marker / font / switch options with a particular input, unusual but legal token shapes, values at a boundary. State that leaks between two uses (a cache, a reused slice, a counter that is not reset) and cooperating edits at two sites are welcome.",
  "interactions": "Assume that a checker already explores small programs that use the property's feature on its own, in every simple position. Aim for what such a checker would miss: the change must only manifest when the property's feature INTERACTS with another feature of the language or tool - constants (const), poryswitch, AutoVar commands, inline text / format() / moves(), mapscripts with inline scripts, user labels and gotos, several top-level statements in one file in a particular order, line markers, lint mode, -optimize, CRLF or multi-byte input, comments - or only for the second / later occurrence of something in one file, or only at depth >= 2 of nesting. Model each change on a plausible maintenance activity: a performance optimisation (caching, early exit, avoiding an allocation), the first half of a new feature, a generalisation of a helper to a second caller, a clean-up that merges two similar code paths, a bug fix for a different issue that over-reaches.",
  "margins": "Assume that a checker already explores small and medium programs that use the property's feature alone and in combination with the other main features. Aim at the margins instead: (a) the LAST clauses of the statement and the last items of the 'quantified over' text, which get the least attention; (b) rarely used language forms - do...while, condition-less while, value(), defeated(), comparison operators other than ==, (global)/(local) modifiers, elif chains, nested parentheses and '!' in conditions, empty blocks, trailing commas, hex and negative numbers, multi-token operands, string-type prefixes, raw blocks, comments in odd places; (c) sizes just beyond the usual: the 4th or 5th element of a list, nesting depth 3, three scripts in a file, two mapscripts statements, two tables, long texts; (d) error paths: inputs that must be rejected (or must not be), the position an error is reported at, lint mode versus normal mode; (e) less central helper functions and rarely taken branches of the code the property is anchored in. Model each change on plausible maintenance: a refactoring of a helper, a 'simplification' of a rarely taken branch, tightening or loosening a validity check, a performance tweak in a loop, handling of a new edge case that disturbs an old one.",
+ "boundaries": "Assume that a checker already explores small and medium programs thoroughly, including feature interactions. Aim at BOUNDARIES and ORDER: the change must be an off-by-one, a wrong comparison operator (< vs <=, == vs >=), a wrong initial value, a loop that starts or stops one element early or late, a first/last-element special case, or a wrong tie-break / ordering, so that behaviour differs ONLY at an edge: the first or the last element of a list, an empty or one-element list or block, exactly-fitting widths (line width == maxLineLength, with and without the cursor overlap), numLines == 1, multiplier 1 / 9999 / 10000, the var-id range edges (0x4000, 0x40FF, 0x8000, 0x8015) in comparisons, chunk ids 0 and 1, the first or last line of the file, column 0, a file that does not end in a newline, a file with only comments, a zero-length string or raw block, the first or last case of a switch or poryswitch, the first or last top-level statement, exactly two of something where one or three work. Every other input must behave exactly as before (the existing tests pass). Model each change on plausible maintenance: a loop rewritten with indices, a condition 'simplified', a slice re-sliced, an early exit added, a counter moved.",
 }[style]
 letters = "ABCDEF"[:n]
 os.makedirs(root + "/prompts", exist_ok=True)
